@@ -44,6 +44,10 @@ var c12 = Register("C12", "C12.bid", func(a c12Args) *Violation {
 		}
 	}
 	form, neg, coefBytes, exp := d.Decompose(scratch)
+	// the sign bit of the bytes is the sign every accessor reports, for every class (NaN included)
+	if sb := b[0]&0x80 != 0; sb != d.Signbit() || sb != neg {
+		return violf("%s: sign bit in bytes %v, Signbit() %v, Decompose %v", a.V, sb, d.Signbit(), neg)
+	}
 	switch {
 	case d.IsNaN():
 		if n.Class != ref.NaN || b[0]&0x7c != 0x7c || form != 2 {
@@ -52,6 +56,9 @@ var c12 = Register("C12", "C12.bid", func(a c12Args) *Violation {
 	case d.IsInf(0):
 		if n.Class != ref.Inf || b[0]&0x7c != 0x78 || n.Neg != d.Signbit() || form != 1 {
 			return violf("Inf %s marshals to % x (decoder: %s)", a.V, b, n)
+		}
+		if d.IsInf(1) == n.Neg || d.IsInf(-1) != n.Neg {
+			return violf("Inf %s (% x): IsInf(+1) = %v, IsInf(-1) = %v, decoder sign negative = %v", a.V, b, d.IsInf(1), d.IsInf(-1), n.Neg)
 		}
 	default:
 		if n.Class != ref.Finite || form != 0 {
